@@ -376,8 +376,8 @@ def rec_large(des, wt, sc, cons):
         "cl": [a + 1 for a, _, _ in cons], "cr": [b + 1 for _, b, _ in cons],
         "cg5": [int(g * 2 * 100000) for _, _, g in cons],
         "uns": uns,
-        "pos5": [int(round(p * 100000)) if abs(p) < 2000 else None for p in pos],
-        "pos6": [int(round(p * 1000000)) if abs(p) < 2000 else None for p in pos],
+        "pos5": [int(round(p * 100000)) if abs(p) < 1000 else None for p in pos],
+        "pos6": [int(round(p * 1000000)) if abs(p) < 1000 else None for p in pos],
         "ret14": limbs(int(round(Fraction(ret) * 10 ** 14))) if ret is not None else [],
         "terminated": 1 if term else 0,
         "acyclic": 1 if is_acyclic(n, cons) else 0,
